@@ -86,7 +86,11 @@ def judge_run(prog, ctx, detail, tz, scratch, digests: Dict[str, Dict[str, str]]
     t0 = time.time()
     try:
         records, files, real, pipe, driver = traces.traced_single(prog, dkind, ctx, detail=detail, mode="file", scratch=scratch, pipeline=pipeline)
+    except traces.TraceUnreadable as exc:
+        return ("trace-not-parsable", f"the trace file cannot be read back as JSON lines: {exc}"), {"class": f"{ref.status}:{ref.error}", "sers": 0}
     except Exception as exc:
+        if not (ref.status == "construct" and ref.error == type(exc).__name__):
+            return ("loader-or-driver-refuses-valid-configuration", f"{type(exc).__name__}: {str(exc)[:200]} (reference: {ref.status} {ref.error})"), {"class": "loader-rejects", "sers": 0}
         return None, {"class": "loader-rejects"}
     t1 = time.time()
     info = {"class": f"{ref.status}:{ref.error}", "sers": 0, "pipeline": pipe}
@@ -189,10 +193,60 @@ def judge_run(prog, ctx, detail, tz, scratch, digests: Dict[str, Dict[str, str]]
         # (f) durations
         if s["timing"]["wall_ms"] < 0 or s["timing"].get("cpu_ms", 0) < 0:
             return ("negative-duration", f"{where}: {s['timing']}"), info
+        # sound bounds only (wall_ms and the two timestamps are taken at slightly different moments, so they need not agree with each
+        # other): no node took longer than the whole run, and a node that slept n seconds took at least that long
+        if s["timing"]["wall_ms"] > (t1 - t0) * 1000.0 + 5.0:
+            return ("duration-longer-than-the-run", f"{where}: wall_ms={s['timing']['wall_ms']} but the whole run took {(t1 - t0) * 1000.0:.0f} ms"), info
+        slept = sym["cfg"].get("seconds") if sym.get("proc") == "VSleep" else None
+        if slept is not None and not failing and s["timing"]["wall_ms"] < slept * 1000.0 - 5.0:
+            return ("duration-shorter-than-the-node-took", f"{where}: the node slept {slept} s, wall_ms={s['timing']['wall_ms']}"), info
         if s["status"] != ("error" if failing else "succeeded"):
             return ("wrong-status", f"{where}: status {s['status']}"), info
         pre_ctx, pre_data = post_ctx, post_data
     return None, info
+
+
+def inplace_digest_cases(scratch) -> Tuple[int, List[Tuple[str, str, dict]]]:
+    """Beyond the small scope: collections of 8 ... 300 elements handed to a pipeline, changed IN PLACE by the caller (same object, same
+    length) and handed over again, then a fresh object of the changed content: a digest is a function of the content — the changed
+    content hashes like the fresh object, not like the object's earlier content."""
+    from semantiva.examples.test_utils import FloatDataCollection, FloatDataType
+    from semantiva.pipeline import Pipeline
+
+    viols: List[Tuple[str, str, dict]] = []
+    n = 0
+    prog = ("slice_mul3", "sum")
+    cfg = harness.load_config(gen.yaml_config(prog))
+
+    def run(data):
+        harness.clear_dir(scratch)
+        tp = os.path.join(scratch, "t.ser.jsonl")
+        from semantiva.trace.drivers.jsonl import JsonlTraceDriver
+
+        pipe = Pipeline(cfg.nodes, trace=JsonlTraceDriver(tp, detail="hash"))
+        harness.run_pipeline(pipe, data, {}, None)
+        from mc import cli as _cli
+
+        recs, _ = _cli.collect_trace(tp)
+        sers = [r for r in recs if r.get("record_type") == "ser"]
+        return [((s_.get("summaries") or {}).get("input_data") or {}).get("sha256") for s_ in sers], [((s_.get("summaries") or {}).get("output_data") or {}).get("sha256") for s_ in sers]
+
+    for size in (8, 127, 128, 200, 300):
+        vals = [float(i % 17) + i * 0.5 for i in range(size)]
+        x = FloatDataCollection.from_list([FloatDataType(v) for v in vals])
+        in1, out1 = run(x)
+        x.data[0] = FloatDataType(-5.0)      # the caller edits its own object between two runs
+        x.data[size - 1] = FloatDataType(77.25)
+        in2, out2 = run(x)
+        vals2 = [-5.0] + vals[1:-1] + [77.25]
+        in3, out3 = run(FloatDataCollection.from_list([FloatDataType(v) for v in vals2]))
+        n += 3
+        case = {"kind": "inplace", "size": size}
+        if in2[0] == in1[0]:
+            viols.append(("digest-not-function-of-content|stale-after-in-place-change", f"a {size}-element collection changed in place keeps its input digest {in1[0]}", case))
+        elif in2 != in3 or out2 != out3:
+            viols.append(("digest-not-function-of-content|stale-after-in-place-change", f"{size} elements: the changed object hashes to {in2} / {out2}, a fresh object of the same content to {in3} / {out3}", case))
+    return n, viols
 
 
 def contexts_c07(prog) -> List[Dict[str, Any]]:
@@ -305,6 +359,8 @@ def plan(tier: str):
             jobs.append((p, details[i % len(details)], tzs[(i // len(details)) % len(tzs)]))
     from mc.props.c06 import HISTORY_PROGS
 
+    for i, p in enumerate(gen.SLOW_PROGS):
+        jobs.append((p, details[i % 2], tzs[i % len(tzs)]))
     for i, p in enumerate(HISTORY_PROGS + (list(SAME_FAMILY_PROGS) if tier == "thorough" else list(SAME_FAMILY_PROGS[:4]))):
         jobs.append((p, "history:" + details[i % len(details)], tzs[i % len(tzs)]))
     return jobs
@@ -335,6 +391,11 @@ def check(tier: str, seed: int) -> Result:
                                            {"kind": "digest", "family": fam, "content": k}))
         if o["sample"] and len(samples) < 4:
             samples.append(o["sample"])
+    harness.quiet()
+    n_ip, v_ip = inplace_digest_cases(harness.enter_scratch())
+    n += n_ip
+    for sig, msg, case in v_ip:
+        viols.append(Violation(sig, msg, case))
     cov = {
         "states": len(merged["data"]) + len(merged["ctx"]), "transitions": sers, "traces_validated_against_impl": n,
         "evaluations": n, "distinct_nontrivial": len(nontrivial),
@@ -354,6 +415,8 @@ def check(tier: str, seed: int) -> Result:
 def replay(case) -> List[Violation]:
     harness.quiet()
     scratch = harness.enter_scratch()
+    if case.get("kind") == "inplace":
+        return [Violation(s_, m, c) for s_, m, c in inplace_digest_cases(scratch)[1] if c["size"] == case["size"]]
     set_tz(case.get("tz", "UTC"))
     ctx = dict(case["ctx"])
     if case.get("menu"):
